@@ -92,7 +92,7 @@ func (ic instrCompiler) ProcessLoadConstInstr(l ir.LoadConst) {
 	}
 	if !inlined {
 		ckidx := ic.QueueConstant(l.Kidx)
-		opcode = code.LoadConst(dst, code.KIndexFromInt(ckidx))
+		opcode = code.LoadConst(dst, ic.kindex(ckidx))
 	}
 	ic.Emit(opcode)
 }
@@ -139,7 +139,7 @@ func (ic instrCompiler) ProcessCallInstr(c ir.Call) {
 // ProcessMkClosureInstr compiles a MkClosure instruction.
 func (ic instrCompiler) ProcessMkClosureInstr(m ir.MkClosure) {
 	ckidx := ic.QueueConstant(m.Code)
-	opcode := code.LoadClosure(ic.codeReg(m.Dst), code.KIndexFromInt(ckidx))
+	opcode := code.LoadClosure(ic.codeReg(m.Dst), ic.kindex(ckidx))
 	ic.Emit(opcode)
 	// Now add the upvalues
 	for _, upval := range m.Upvalues {
@@ -330,6 +330,15 @@ func (p *CompilationPanic) Error() string {
 		return fmt.Sprintf("%s (around line %d)", p.msg, p.line)
 	}
 	return p.msg
+}
+
+// kindex turns the index of a constant into a code.KIndex, or fails with a
+// compilation error if there are too many constants in the unit.
+func (ic instrCompiler) kindex(ckidx int) code.KIndex {
+	if ckidx > math.MaxUint16 {
+		panic(newPanic("too many constants"))
+	}
+	return code.KIndexFromInt(ckidx)
 }
 
 func newPanic(msg string) *CompilationPanic {
